@@ -58,12 +58,29 @@ def argmax(
     # Note: If multiple maxima exist, this approach will select the first index.
     # ==================================================================================
     _max = jnp.max(a, axis=-1, keepdims=True, initial=initial, where=where)
-    max_value_mask = a == _max
-    if where is not None:
-        max_value_mask = jnp.logical_and(max_value_mask, where)
-    argmax = jnp.argmax(max_value_mask, axis=-1)
+    if where is None:
+        argmax = jnp.argmax(a, axis=-1)
+    else:
+        # Comparing a with _max for equality is not reliable inside a jitted
+        # computation: XLA may evaluate the fused expression that produces a twice,
+        # with different rounding. We therefore take the argmax of the masked array.
+        masked = jnp.where(where, a, _lowest_value(a.dtype))
+        argmax = jnp.argmax(masked, axis=-1)
+        # If all unmasked elements equal the lowest value, argmax may point to a masked
+        # element; then we select the first unmasked element (0 if all are masked).
+        is_unmasked = jnp.take_along_axis(where, argmax[..., None], axis=-1)[..., 0]
+        argmax = jnp.where(is_unmasked, argmax, jnp.argmax(where, axis=-1))
 
     return argmax, _max.reshape(argmax.shape)
+
+
+def _lowest_value(dtype):
+    """Return the lowest value representable in dtype."""
+    if jnp.issubdtype(dtype, jnp.floating):
+        return -jnp.inf
+    if jnp.issubdtype(dtype, jnp.integer):
+        return jnp.iinfo(dtype).min
+    return False
 
 
 def _move_axes_to_back(a: Array, axes: tuple[int, ...]) -> Array:
